@@ -1,9 +1,12 @@
 #!/bin/sh
 # Build the framework from files on disk only (offline): Lean library + proofs + model driver,
-# then the Rust harness against /repo's current working tree.
+# the Rust harness against /repo's current working tree (two feature sets), and the translator tie
+# (definitions regenerated from /repo's sources, checked against the model; the verdict is cached by content).
 set -e
 cd "$(dirname "$0")"
 export CARGO_NET_OFFLINE=true
 (cd lean && lake build Rngs modeldriver)
 (cd harness && RUSTFLAGS="--cfg rngs_verif --check-cfg cfg(rngs_verif)" cargo build --offline --profile tie)
+(cd harness && RUSTFLAGS="--cfg rngs_verif --check-cfg cfg(rngs_verif)" CARGO_TARGET_DIR="$(pwd)/target-jlog" cargo build --offline --profile tie --features jlog)
+python3 tools/exttie.py /repo | head -3
 echo setup-ok
